@@ -166,6 +166,8 @@ type vWorldOpts struct {
 	AdminUsers []string
 	CLITokens  bool
 	NoDB       bool
+	// public keys the server knows before it unseals (keymaster_public_keys_filename)
+	PrePublished []crypto.PublicKey
 }
 
 type vIdentLogger struct{ w *vWorld }
@@ -230,6 +232,7 @@ func newWorld(o vWorldOpts) *vWorld {
 	if o.Ed25519 {
 		st.Ed25519CAFileContent = vEdKeyPEM
 	}
+	st.KeymasterPublicKeys = append(st.KeymasterPublicKeys, o.PrePublished...)
 	if !o.Sealed {
 		w.unsealDirect()
 	}
